@@ -1,2 +1,198 @@
-import Crem.Model.CatchmentSpec
-/-! # C01 — theorems under construction (see DESIGN.md section 5) -/
+import Crem.Proofs.CatchmentOps
+/-!
+# C01 — the valuation depends only on the active action set (history independence)
+
+Theorems about the executable catchment model `Crem/Model/Catchment.lean` (validated line by line
+against the Go code by the `catchment-walk` suite).  Exact in ℚ; for every dataset `D` satisfying the
+decidable hypotheses `InitConsistent D` and `KeysDistinct D.acts` (both evaluated by the driver on
+every dataset extracted from the running Go code), every number of planning units and actions, and
+every finite history of whole transactions.
+
+A *conformant* history (every proposal followed by exactly one accept or revert before the next
+mutating operation) is represented as a list of whole transactions `Tx`.  `acceptToggle i` /
+`revertToggle i` are `TryRandomChange` (index `i` drawn) followed by `AcceptChange` / `RevertChange`;
+an index outside the action list cannot be drawn (`Intn(len)`), such a transaction is the identity.
+`set` = `SetManagementAction`, `setAll` = `SynchroniseTo` / `ModelCompressor.Decompress`,
+`reinit` = `Initialise(kind)`, `randomize` = `Randomize()` with the `Intn` draws given.
+
+Non-conformant sequences are outside the theorems; the `example`s at the end show that the
+restriction is necessary (`revert;revert` and `propose;revert;accept` separate flags and values,
+in Go as in the model).
+
+Every `theorem` in this file is audited by `./check C01` (`#print axioms`).
+-/
+namespace Crem.Catchment
+
+/-- whole transactions of the `model.Model` protocol -/
+inductive Tx
+  | acceptToggle (i : Nat)
+  | revertToggle (i : Nat)
+  | set (i : Nat) (b : Bool)
+  | setAll (bits : List Bool)
+  | reinit (k : InitKind)
+  | randomize (draws : List Nat)
+
+def applyTx (D : Data) (s : State) : Tx → State
+  | .acceptToggle i => if i < D.acts.length then accept (propose D s i) else s
+  | .revertToggle i => if i < D.acts.length then revert (propose D s i) else s
+  | .set i b => setAction D s i b
+  | .setAll bits => setAll D s bits
+  | .reinit k => initialise D k
+  | .randomize draws => (randomize D s draws).state
+
+/-- the state after a conformant history, starting from `Initialise(AsIs)` -/
+def run (D : Data) (txs : List Tx) : State := txs.foldl (applyTx D) (init D)
+
+/-- every transaction preserves the central invariant -/
+theorem applyTx_canon {D : Data} (hI : InitConsistent D) (hK : KeysDistinct D.acts) {s : State}
+    (hc : Canon D s) (tx : Tx) : Canon D (applyTx D s tx) := by
+  cases tx with
+  | acceptToggle i =>
+    simp only [applyTx]
+    split
+    · rename_i hi; exact accept_propose_canon hI.facts hK hc hi
+    · exact hc
+  | revertToggle i =>
+    simp only [applyTx]
+    split
+    · rename_i hi; exact revert_propose_canon hI.facts hc hi
+    · exact hc
+  | set i b => exact setAction_canon hI.facts hK hc i b
+  | setAll bits => exact setAll_canon hI.facts hK hc bits
+  | reinit k => exact initialise_canon hI hK k
+  | randomize draws => exact randomize_canon hI.facts hK hc draws
+
+/-- **Central invariant on all reachable states**: after any conformant history every hidden
+attribute record, every per-unit value and every total of all six variables is the canonical one
+for the current action flags. -/
+theorem canon_of_history {D : Data} (hI : InitConsistent D) (hK : KeysDistinct D.acts) (txs : List Tx) :
+    Canon D (run D txs) :=
+  foldl_inv (Canon D) (applyTx D) (fun _ tx h => applyTx_canon hI hK h tx) txs (init D) (canon_init hI)
+
+/-- **History independence** (the property): two conformant histories ending in the same active
+set give the same catchment total and the same per-planning-unit value of every variable. -/
+theorem history_independent {D : Data} (hI : InitConsistent D) (hK : KeysDistinct D.acts)
+    (h₁ h₂ : List Tx) (hf : (run D h₁).flags = (run D h₂).flags) :
+    ∀ v p, total (run D h₁) v = total (run D h₂) v ∧ unitVal (run D h₁) v p = unitVal (run D h₂) v p := by
+  have hs := (canon_of_history hI hK h₂).sameVals (canon_of_history hI hK h₁) hf
+  exact fun v p => ⟨hs.total_eq v, hs.unitVal_eq v p⟩
+
+/-- … and the same hidden state: all attribute records (`Cell.ctx`) of the three pollutant
+variables agree too, so the two models are indistinguishable by any later history as well. -/
+theorem history_independent_hidden {D : Data} (hI : InitConsistent D) (hK : KeysDistinct D.acts)
+    (h₁ h₂ : List Tx) (hf : (run D h₁).flags = (run D h₂).flags) :
+    SameVals (run D h₂) (run D h₁) :=
+  (canon_of_history hI hK h₂).sameVals (canon_of_history hI hK h₁) hf
+
+/-- applying an assignment of the right length to the freshly initialised model yields exactly
+that assignment -/
+theorem setAll_init_flags {D : Data} (hI : InitConsistent D) (hK : KeysDistinct D.acts)
+    (bits : List Bool) (hl : bits.length = D.acts.length) :
+    (setAll D (init D) bits).flags = bits := by
+  have := setAll_flags_aux hI.facts hK bits 0 (init D) [] (init D).flags (canon_init hI) rfl rfl
+    (by rw [(canon_init hI).len, hl])
+  simpa [setAll] using this
+
+/-- **… the same values as a freshly initialised model to which exactly that set is applied**:
+after any conformant history the model agrees, in action flags, every total and every
+per-planning-unit value, with `setAll D (init D) flags`. -/
+theorem equals_fresh_model {D : Data} (hI : InitConsistent D) (hK : KeysDistinct D.acts) (txs : List Tx) :
+    (setAll D (init D) (run D txs).flags).flags = (run D txs).flags ∧
+    ∀ v p, total (run D txs) v = total (setAll D (init D) (run D txs).flags) v ∧
+           unitVal (run D txs) v p = unitVal (setAll D (init D) (run D txs).flags) v p := by
+  have hc := canon_of_history hI hK txs
+  have hfl := setAll_init_flags hI hK (run D txs).flags hc.len
+  have hfresh := setAll_canon hI.facts hK (canon_init hI) (run D txs).flags
+  have hs := hfresh.sameVals hc hfl.symm
+  exact ⟨hfl, fun v p => ⟨hs.total_eq v, hs.unitVal_eq v p⟩⟩
+
+/-! ### Non-vacuity and sanity examples (tests, labelled as such)
+
+A concrete dataset: two planning units, three actions (gully and riparian in unit 1, hill-slope in
+unit 2), non-trivial constants. -/
+
+def exData : Data :=
+  { acts := [ { pu := 1, typ := .gully,
+                k := { implCost := 1234567/1000, oppCost := 10, origGullySed := 31/7, actGullySed := 5/3,
+                       origPN := 2/9, actPN := 1/11, origDN := 7/13, actDN := 3/17 } },
+              { pu := 1, typ := .riparian,
+                k := { implCost := 5005/1000, oppCost := 77/3, origVeg := 1/5, actVeg := 4/5,
+                       origRipSed := 12345/1000, actRipSed := 2/3, origFine := 40, actFine := 35,
+                       origDN := 9/7, actDN := 1/3 } },
+              { pu := 2, typ := .hillslope,
+                k := { implCost := 99, oppCost := 1/8, origHillSed := 100/3, actHillSed := 50/7,
+                       origPN := 3/2, actPN := 2/7, origDN := 5/6, actDN := 1/9 } } ],
+    sed0 := [ (1, { veg := 1/5, rip := 12345/1000, gully := 31/7, hill := 8/3, wet := 0 }),
+              (2, { veg := 1/2, rip := 1/3, gully := 0, hill := 100/3, wet := 0 }) ],
+    pn0 := [ (1, { veg := 1/5, rip := 12345/1000 * 40 * (1/100), gully := 2/9, hill := 1/7, wet := 0 }),
+             (2, { veg := 1/2, rip := 1/9, gully := 0, hill := 3/2, wet := 0 }) ],
+    dn0 := [ (1, { veg := 1/5, rip := 9/7, gully := 7/13, hill := 1/7, wet := 0, aux := 1/2 }),
+             (2, { veg := 1/2, rip := 1/9, gully := 0, hill := 5/6, wet := 0, aux := 1/3 }) ],
+    maxIC := some 2000 }
+
+example : InitConsistent exData := by decide +kernel
+example : KeysDistinct exData.acts := by decide +kernel
+
+/-- a concrete history … -/
+def exS : State :=
+  run exData [.acceptToggle 0, .set 2 true, .revertToggle 1, .acceptToggle 1, .acceptToggle 0]
+/-- … and the model to which its final set is applied directly -/
+def exF : State := run exData [.setAll [false, true, true]]
+
+/-- evaluated: flags, a cost total (5.005 rounds half away from zero to 5.01; 5.01 + 99), and agreement
+in all cells (hidden attribute records included) and totals -/
+example :
+    exS.flags = [false, true, true] ∧ total exS .ic = 10401/100 ∧
+      exS.sed.cells = exF.sed.cells ∧ exS.sed.total = exF.sed.total ∧
+      exS.pn.cells = exF.pn.cells ∧ exS.pn.total = exF.pn.total ∧
+      exS.dn.cells = exF.dn.cells ∧ exS.dn.total = exF.dn.total ∧
+      exS.tn.cells = exF.tn.cells ∧ exS.tn.total = exF.tn.total ∧
+      exS.ic.cells = exF.ic.cells ∧ exS.ic.total = exF.ic.total ∧
+      exS.oc.cells = exF.oc.cells ∧ exS.oc.total = exF.oc.total := by
+  decide +kernel
+
+/-- values do move: the example is not trivially constant -/
+example : total (run exData [.acceptToggle 0]) .sed ≠ total (run exData []) .sed := by decide +kernel
+
+/-- a non-conformant sequence: `propose; revert; revert` -/
+def exRevertRevert : State := revert (revert (propose exData (init exData) 0))
+
+/-- **The restriction to whole transactions is necessary.**  `revert;revert` (API misuse no caller
+performs) flips the action flag twice but undoes the values once: afterwards flag 0 says "active"
+while every value is that of the empty set, so the state is not the canonical one. -/
+example :
+    exRevertRevert.flags = [true, false, false] ∧
+    total exRevertRevert .sed = total (init exData) .sed ∧
+    total exRevertRevert .sed ≠ total (setAll exData (init exData) exRevertRevert.flags) .sed := by
+  decide +kernel
+
+/-- a non-conformant sequence: `propose; revert; accept` -/
+def exRevertAccept : State := accept (revert (propose exData (init exData) 0))
+
+/-- likewise `propose;revert;accept`: the accept re-applies the reverted command, the values are
+those of {0} while the flags say ∅. -/
+example :
+    exRevertAccept.flags = [false, false, false] ∧
+    total exRevertAccept .sed ≠ total (init exData) .sed ∧
+    total exRevertAccept .sed = total (setAll exData (init exData) [true, false, false]) .sed := by
+  decide +kernel
+
+/-- **`InitConsistent` is necessary** (the shape of defect D1, DESIGN.md section 6): one unit with a
+hill-slope and a riparian action whose initial sediment record carries a hill-slope contribution (10)
+other than the action's original constant (20). -/
+def exBad : Data :=
+  { acts := [ { pu := 1, typ := .hillslope, k := { origHillSed := 20, actHillSed := 5 } },
+              { pu := 1, typ := .riparian,
+                k := { origVeg := 3/10, actVeg := 7/10, origRipSed := 4, actRipSed := 1 } } ],
+    sed0 := [ (1, { veg := 3/10, rip := 4, gully := 0, hill := 10, wet := 0 }) ],
+    pn0 := [ (1, { veg := 3/10, rip := 0, gully := 0, hill := 0, wet := 0 }) ],
+    dn0 := [ (1, { veg := 3/10, rip := 0, gully := 0, hill := 0, wet := 0 }) ] }
+
+/-- the hypothesis fails, and two conformant histories ending in the same active set disagree -/
+example : ¬ InitConsistent exBad ∧ KeysDistinct exBad.acts ∧
+    (run exBad [.acceptToggle 0, .acceptToggle 1]).flags = (run exBad [.acceptToggle 1, .acceptToggle 0]).flags ∧
+    total (run exBad [.acceptToggle 0, .acceptToggle 1]) .sed
+      ≠ total (run exBad [.acceptToggle 1, .acceptToggle 0]) .sed := by
+  decide +kernel
+
+end Crem.Catchment
